@@ -7,7 +7,7 @@ From Coq Require Import List ZArith QArith.
 Import ListNotations.
 From Eudoxia Require Import Model.Types Model.Dag Model.Lifecycle Model.Container Model.Pool Model.Executor
   Model.Sched Model.Simulator Proofs.ExecLifeFacts Proofs.NaiveFacts Proofs.OverbookFacts
-  Proofs.PriorityPoolRunFacts Proofs.OverbookRunFacts.
+  Proofs.PriorityPoolRunFacts Proofs.OverbookRunFacts Proofs.OverbookCpuFacts.
 Close Scope Q_scope.
 Close Scope Z_scope.
 
@@ -211,3 +211,91 @@ Proof. exact OverbookRunExample.ex_ob_retry_run. Qed.
 Example C18_run_complete_applies :
   In 4 (ss_queue (sm_sched OverbookRunExample.s2x)).
 Proof. exact OverbookRunExample.ex_ob_complete_applies. Qed.
+
+(* ---------------------------------------------------------------------------------------------- *)
+(* Run level, CPU side (closes audit point P9; proofs in Proofs/OverbookCpuFacts.v): in every state a run
+   of overbook passes through, a pool never runs more containers than it has CPUs. [cpu] is the CPU count
+   every pool of [init_sim C np cpu ram] is built with. *)
+Theorem C18_run_containers_le_cpus : forall C np cpu ram t s,
+  (0 <= cpu)%Z ->
+  sim_reach C AOverbook 0%Z (init_sim C np cpu ram) t s ->
+  forall p, In p (e_pools (sm_exec s)) -> length (p_active p) <= Z.to_nat cpu.
+Proof. exact ob_containers_le_cpus. Qed.
+Print Assumptions C18_run_containers_le_cpus.
+
+(* the hypothesis [0 <= cpu] is not needed for the bound: a pool built with a negative CPU count never
+   runs a container ([Z.to_nat cpu = 0]) *)
+Theorem C18_run_containers_le_cpus_any : forall C np cpu ram t s,
+  sim_reach C AOverbook 0%Z (init_sim C np cpu ram) t s ->
+  forall p, In p (e_pools (sm_exec s)) -> length (p_active p) <= Z.to_nat cpu.
+Proof. exact ob_containers_le_cpus_any. Qed.
+Print Assumptions C18_run_containers_le_cpus_any.
+
+(* the sharp form: nothing is suspending and nothing was ever suspended, every container holds exactly one
+   CPU, so the number of containers of a pool is its number of allocated CPUs = capacity - free, and the
+   free count is never negative *)
+Theorem C18_run_containers_eq_allocated : forall C np cpu ram t s,
+  (0 <= cpu)%Z ->
+  sim_reach C AOverbook 0%Z (init_sim C np cpu ram) t s ->
+  forall p, In p (e_pools (sm_exec s)) ->
+    p_suspending p = [] /\ p_suspended p = [] /\
+    (forall c, In c (p_active p) -> c_cpu c = 1%Z) /\
+    p_max_cpu p = cpu /\
+    Z.of_nat (length (p_active p)) = (cpu - p_avail_cpu p)%Z /\
+    (0 <= p_avail_cpu p <= cpu)%Z.
+Proof. exact ob_containers_eq_allocated. Qed.
+Print Assumptions C18_run_containers_eq_allocated.
+
+(* the same for the state [sf] in which a run ends, normally ([oe = None]) or at the tick that raised *)
+Theorem C18_run_containers_le_cpus_final : forall C np cpu ram arrivals sf logs oe,
+  (0 <= cpu)%Z ->
+  sim_run C AOverbook 0%Z (init_sim C np cpu ram) arrivals = (sf, logs, oe) ->
+  forall p, In p (e_pools (sm_exec sf)) -> length (p_active p) <= Z.to_nat cpu.
+Proof. exact ob_containers_le_cpus_run. Qed.
+Print Assumptions C18_run_containers_le_cpus_final.
+
+Theorem C18_run_containers_eq_allocated_final : forall C np cpu ram arrivals sf logs oe,
+  (0 <= cpu)%Z ->
+  sim_run C AOverbook 0%Z (init_sim C np cpu ram) arrivals = (sf, logs, oe) ->
+  forall p, In p (e_pools (sm_exec sf)) ->
+    p_suspending p = [] /\ p_suspended p = [] /\
+    (forall c, In c (p_active p) -> c_cpu c = 1%Z) /\
+    p_max_cpu p = cpu /\
+    Z.of_nat (length (p_active p)) = (cpu - p_avail_cpu p)%Z /\
+    (0 <= p_avail_cpu p <= cpu)%Z.
+Proof. exact ob_containers_eq_allocated_run. Qed.
+Print Assumptions C18_run_containers_eq_allocated_final.
+
+(* non-vacuity: the bound is attained. One pool, 2 CPUs, 8 GB; the pipelines of [OverbookRunExample.Lx],
+   every operator runs three ticks at 1 GB ([OverbookCpuExample.Cy]); both pipelines arrive in tick 0.
+   [s1y], [s2y], [s4y] = the states after ticks 0, 1 and 3 of [run_y l = sim_run Cy AOverbook 0 s0y l];
+   [cpu_view] lists (containers running, CPUs, free CPUs) per pool. After ticks 0 and 1: two containers on
+   two CPUs, none free, the ready operators 3 and 4 wait. Operators 0 and 1 complete in tick 2; the round
+   of tick 3 hands their CPUs to 3 and 4, the pool is full again and operator 2 waits. *)
+Example C18_run_cpu_bound_attained :
+  OverbookCpuExample.cpu_view OverbookCpuExample.s1y = [(2, 2%Z, 0%Z)] /\
+  ss_queue (sm_sched OverbookCpuExample.s1y) = [3; 4] /\
+  map (st_of (e_world (sm_exec OverbookCpuExample.s1y))) [0; 1; 2; 3; 4]
+    = [Running; Running; Pending; Pending; Pending] /\
+  OverbookCpuExample.cpu_view OverbookCpuExample.s2y = [(2, 2%Z, 0%Z)] /\
+  ss_queue (sm_sched OverbookCpuExample.s2y) = [3; 4] /\
+  OverbookCpuExample.cpu_view OverbookCpuExample.s4y = [(2, 2%Z, 0%Z)] /\
+  ss_queue (sm_sched OverbookCpuExample.s4y) = [2] /\
+  map (st_of (e_world (sm_exec OverbookCpuExample.s4y))) [0; 1; 2; 3; 4]
+    = [Completed; Completed; Pending; Running; Running].
+Proof. exact OverbookCpuExample.ex_bound_attained. Qed.
+
+(* these states are states of the run, and the run raises nothing *)
+Example C18_run_cpu_states_reachable :
+  (exists t, sim_reach OverbookCpuExample.Cy AOverbook 0%Z OverbookCpuExample.s0y t OverbookCpuExample.s1y) /\
+  (exists t, sim_reach OverbookCpuExample.Cy AOverbook 0%Z OverbookCpuExample.s0y t OverbookCpuExample.s2y) /\
+  (exists t, sim_reach OverbookCpuExample.Cy AOverbook 0%Z OverbookCpuExample.s0y t OverbookCpuExample.s4y) /\
+  snd (OverbookCpuExample.run_y [[0; 1]; []; []; []]) = None.
+Proof. exact OverbookCpuExample.ex_reach. Qed.
+
+(* the theorem applied to that run; its bound is met with equality by the pool [p1y] of [s1y] *)
+Example C18_run_cpu_bound_applies :
+  (forall p, In p (e_pools (sm_exec OverbookCpuExample.s1y)) -> length (p_active p) <= Z.to_nat 2) /\
+  In OverbookCpuExample.p1y (e_pools (sm_exec OverbookCpuExample.s1y)) /\
+  length (p_active OverbookCpuExample.p1y) = Z.to_nat 2.
+Proof. exact OverbookCpuExample.ex_theorem_applies. Qed.
